@@ -266,6 +266,9 @@ func Run(req *fnv1.RunFunctionRequest) *fnv1.RunFunctionResponse {
 			if op["value"] != nil {
 				if str(op["value"]) == "true" {
 					rsp.Desired.Composite.Ready = fnv1.Ready_READY_TRUE
+				} else if str(op["value"]) == "unspecified" {
+					// a step that builds the desired XR anew: no opinion, whatever earlier steps said
+					rsp.Desired.Composite.Ready = fnv1.Ready_READY_UNSPECIFIED
 				} else {
 					rsp.Desired.Composite.Ready = fnv1.Ready_READY_FALSE
 				}
